@@ -47,6 +47,9 @@
     # a call that raises synchronously (invalid data) followed, in the same fiber turn, by a real wait
     [:badw pi tmo inner] (let [t (make-thunk inner chans)]
                            (fn [] (protect (ev/write ((pipes pi) 1) 12345 tmo)) (t)))
+    # a bare ev/deadline set inside a nested fiber that ends at once, followed by a real wait of the task
+    [:dlc s inner] (let [t (make-thunk inner chans)]
+                     (fn [] (resume (coro (ev/deadline s) :done)) (t)))
     (errorf "bad op %p" op)))
 
 (defn run-history [item]
